@@ -189,11 +189,11 @@ class ScipyMILP(BaseOptimizationLibrary):
         problem: OptimizationProblem,
         message: Any,
         status: Any,
-        output_opt: Mapping[str, RealArray],
-        jac_opt: Mapping[str, RealArray],
-        x_0: RealArray,
-        x_opt: RealArray,
-        result: Any,
+        output_opt: Mapping[str, RealArray] | None = None,
+        jac_opt: Mapping[str, RealArray] | None = None,
+        x_0: RealArray | None = None,
+        x_opt: RealArray | None = None,
+        result: Any = None,
     ) -> OptimizationResult:
         """
         Args:
@@ -203,6 +203,10 @@ class ScipyMILP(BaseOptimizationLibrary):
             x_opt: The optimal design value.
             result: A result specific to this library.
         """  # noqa: D205 D212
+        if result is None:
+            # A termination criterion fired before the solver returned its result.
+            return super()._get_result(problem, message, status)
+
         f_opt = output_opt[problem.objective.name]
         constraint_names = list(problem.constraints.original_to_current_names.keys())
         constraint_values = {key: output_opt[key] for key in constraint_names}
